@@ -92,6 +92,7 @@ def run_for(run, root):
             src = m.apply(root)
             if src is None:
                 st['mutants_skipped' if kind == 'mutant' else 'benign_skipped'] += 1
+                st.setdefault('skipped_names', []).append(m.name)
                 continue
             jobs.append((run.prop, root, {m.file: src}))
             meta.append((kind, m))
@@ -119,4 +120,5 @@ def run_for(run, root):
     for f in st['failures']:
         run.undecide('SELFTEST', '-', f)
     run.notes.append('selftest: %d/%d mutants flagged (%d skipped), %d/%d benign twins silent (%d skipped)' % (
-        st['mutants_flagged'], st['mutants'], st['mutants_skipped'], st['benign_silent'], st['benign_variants'], st['benign_skipped']))
+        st['mutants_flagged'], st['mutants'], st['mutants_skipped'], st['benign_silent'], st['benign_variants'], st['benign_skipped'])
+        + (' skipped: %s' % ','.join(st.get('skipped_names', [])) if st.get('skipped_names') else ''))
